@@ -251,7 +251,9 @@ def _is_normal_reduce_expr(expr: IndexLambda) -> bool:
             else:
                 return False
 
-    return True
+    # every output axis must be accounted for (otherwise the reduction's
+    # result is additionally broadcast)
+    return i_out_dim == len(expr.shape)
 
 
 _SIMPLE_PYMBOLIC_BINARY_OP_MAP = {p.Sum:        BinaryOpType.ADD,
